@@ -192,9 +192,31 @@ def run(ctx):
             for p in ps:
                 jobs.append((i, kind, p, render(prog, p)[0]))
 
+    # programs that bring their own root class, run where no stdlib bloch.lang.Object can be found
+    own_root = [
+        "class Object { public constructor() -> Object = default; }\n"
+        "class Animal { public int legs; public constructor(int legs) -> Animal { this.legs = legs; return this; } "
+        "public function describe() -> string { return \"legs=\" + this.legs; } }\n"
+        "class Dog extends Animal { public constructor() -> Dog { super(4); return this; } }\n"
+        "function main() -> void { Animal a = new Dog(); echo(a.describe()); }\n",
+        "class Object { public int seen = 0; public constructor() -> Object { this.seen = 1; return this; } }\n"
+        "class Leaf { public int v = 2; public constructor() -> Leaf = default; }\n"
+        "function show(Leaf l) -> int { return l.v + l.seen; }\n"
+        "function main() -> void { echo(show(new Leaf())); }\n",
+    ]
+    for k, text in enumerate(own_root):
+        units = split_top_level(text)
+        rng = ctx.rng("ownroot%d" % k)
+        jobs.append((20000 + k, "own-root", None, "".join(units)))
+        for p in perms(len(units), rng, 24):
+            jobs.append((20000 + k, "own-root", p, "".join(units[j] for j in p)))
+
     def one(job):
         i, kind, p, src = job
-        r, _, _, _ = core.run_bloch(binary, src, env={"BLOCH_VERIF_GC": "none"}, timeout=60)
+        env = {"BLOCH_VERIF_GC": "none"}
+        if kind == "own-root":
+            env["BLOCH_STDLIB_PATH"] = "/nonexistent/bloch-stdlib"
+        r, _, _, _ = core.run_bloch(binary, src, env=env, timeout=60)
         return job, r
 
     results = core.pmap(one, jobs)
